@@ -1,4 +1,117 @@
-/- dsmodel_wire_count: wire-format model driver stub (filled in when the family group is built). -/
-def main (_args : List String) : IO UInt32 := do
-  IO.eprintln "dsmodel_wire_count: not built yet"
-  return 2
+/-
+dsmodel_wire_count: line-protocol driver of the wire models of group `count`
+(count-min, frequent items, VarOpt sketch, VarOpt union, EBPPS).  Core Lean only.
+
+  IMG  <kind> <hex>          -> D <project> | re=<0/1> size=<serializedSize> len=<bytes> minpfx=<n> layout=<name:off,...>
+                                (or `REJECT` when the documented reader rejects the image or leaves bytes unread)
+  PFX  <kind> <hex>          -> one char per strict prefix length 0..len-1: R rejected, A accepted
+  CORR <kind> <hex> <npre>   -> one char per (preamble byte, replacement): R, A, or = (replacement equals the original byte)
+kinds: cm:<w>:<seed>  fi:{i|s}:<w>  vo:{i|s}  vu:{i|s}  eb:{i|s}   (i = 8-byte arithmetic items, s = std::string items)
+-/
+import DSModel.Wire.CountMinGen
+import DSModel.Wire.FiGen
+import DSModel.Wire.VarOptGen
+import DSModel.Wire.EbppsGen
+import DSModel.Murmur3
+import DSModel.DriverLoop
+open DS DS.Wire
+
+/-- what the driver needs from a family: full decode -> (content, re-encoded bytes, advertised size, layout); acceptance -/
+structure Fam where
+  full : Bytes → Option (String × Bytes × Nat × List (String × Nat))
+  accepts : Bytes → Bool
+
+def mkFam {σ : Type} (dec : Reader σ) (enc : σ → Bytes) (size : σ → Nat) (proj : σ → String) (lay : σ → List (String × Nat)) : Fam where
+  full := fun b => match dec b with
+    | some (s, []) => some (proj s, enc s, size s, lay s)
+    | _ => none
+  accepts := fun b => (dec b).isSome
+
+def cmFam (seed : Nat) : Fam :=
+  let c := CountMin.generated
+  let want := (DS.seedHash (UInt64.ofNat seed)).toNat
+  mkFam (CountMin.decode c) (CountMin.encode c) (CountMin.serializedSize c)
+    (fun s => CountMin.project s ++ (if s.seedHash == want then s!" seed={seed}" else s!" seed=MISMATCH({s.seedHash})"))
+    CountMin.layout
+
+def fiFam {ι : Type} (sd : Serde ι) : Fam :=
+  let c := Fi.generated
+  mkFam (Fi.decode c sd) (Fi.encode c sd) (Fi.serializedSize c sd) (Fi.project c sd) Fi.layout
+
+def voFam {ι : Type} (sd : Serde ι) : Fam :=
+  let c := VarOpt.generated
+  mkFam (VarOpt.decode c sd) (VarOpt.encode c sd) (VarOpt.serializedSize c sd) (VarOpt.project sd) (VarOpt.layout sd)
+
+def vuFam {ι : Type} (sd : Serde ι) : Fam :=
+  let c := VarOpt.generated
+  let cu := VarOpt.generatedU
+  mkFam (VarOpt.uDecode cu c sd) (VarOpt.uEncode cu c sd) (VarOpt.uSerializedSize cu c sd) (VarOpt.uProject sd) (VarOpt.uLayout sd)
+
+def ebFam {ι : Type} (sd : Serde ι) : Fam :=
+  let c := Ebpps.generated
+  mkFam (Ebpps.decode c sd) (Ebpps.encode c sd) (Ebpps.serializedSize c sd) (Ebpps.project sd) (Ebpps.layout sd)
+
+def famOf (kind : String) : Option Fam :=
+  match kind.splitOn ":" with
+  | ["cm", _, seed] => seed.toNat?.map cmFam
+  | ["fi", "i", _] => some (fiFam serdeU64)
+  | ["fi", "s", _] => some (fiFam serdeStr)
+  | ["vo", "i"] => some (voFam serdeU64)
+  | ["vo", "s"] => some (voFam serdeStr)
+  | ["vu", "i"] => some (vuFam serdeU64)
+  | ["vu", "s"] => some (vuFam serdeStr)
+  | ["eb", "i"] => some (ebFam serdeU64)
+  | ["eb", "s"] => some (ebFam serdeStr)
+  | _ => none
+
+def minPrefix (f : Fam) (b : Bytes) : Nat := Id.run do
+  for n in [0:b.length + 1] do
+    if f.accepts (b.take n) then return n
+  return b.length + 1
+
+def prefixVerdicts (f : Fam) (b : Bytes) : String := Id.run do
+  let mut s := ""
+  for n in [0:b.length] do
+    s := s.push (if f.accepts (b.take n) then 'A' else 'R')
+  return if s.isEmpty then "-" else s
+
+def replacement (b : UInt8) (j : Nat) : UInt8 :=
+  match j with
+  | 0 => 0x00 | 1 => 0x01 | 2 => 0x7F | 3 => 0x80 | 4 => 0xFF
+  | 5 => b ^^^ 1 | 6 => b ^^^ 0x80 | _ => b + 1
+
+def corruptVerdicts (f : Fam) (b : Bytes) (npre : Nat) : String := Id.run do
+  let mut s := ""
+  let arr := b.toArray
+  for pos in [0:npre] do
+    for j in [0:8] do
+      let o := arr[pos]!
+      let v := replacement o j
+      if v == o then s := s.push '='
+      else s := s.push (if f.accepts (arr.set! pos v).toList then 'A' else 'R')
+  return if s.isEmpty then "-" else s
+
+def showLayout (l : List (String × Nat)) : String := ",".intercalate (l.map (fun p => s!"{p.1}:{p.2}"))
+
+def step (_ : Unit) (w : List String) : Unit × String :=
+  match w with
+  | ["IMG", kind, hex] =>
+    match famOf kind, parseHexBytes hex with
+    | some f, some ba =>
+      let b := ba.toList
+      match f.full b with
+      | some (content, re, size, lay) =>
+        ((), s!"D {content} | re={boolStr (re == b)} size={size} len={b.length} minpfx={minPrefix f b} layout={showLayout lay}")
+      | none => ((), "REJECT")
+    | _, _ => ((), "ERR bad IMG line")
+  | ["PFX", kind, hex] =>
+    match famOf kind, parseHexBytes hex with
+    | some f, some ba => ((), prefixVerdicts f ba.toList)
+    | _, _ => ((), "ERR bad PFX line")
+  | ["CORR", kind, hex, npre] =>
+    match famOf kind, parseHexBytes hex, npre.toNat? with
+    | some f, some ba, some n => ((), corruptVerdicts f ba.toList n)
+    | _, _, _ => ((), "ERR bad CORR line")
+  | _ => ((), "ERR unknown op")
+
+def main (_args : List String) : IO UInt32 := DS.runDriver () step
